@@ -216,7 +216,9 @@ func c10OrderAll(w *mon.W, idx int, hmax int) {
 	w.DistinctExact(ev)
 	w.Extra("ordered_pairs_enumerated", ev)
 	if ev > 0 {
-		w.Sample(func() interface{} { return mon.D{"a": c10Text(pa, la), "against": "every node of every height of that parity up to hmax", "pairs": ev} })
+		w.Sample(func() interface{} {
+			return mon.D{"a": c10Text(pa, la), "against": "every node of every height of that parity up to hmax", "pairs": ev}
+		})
 	}
 }
 
